@@ -356,10 +356,22 @@ func GenRounds(prop string, r *sim.Rand, tier string) sim.Script {
 		n++
 		return Op{K: "ins", T: t, P: p, V: genValue(r, valProfile, n)}
 	}
+	// sparse round numbers: every wideP rounds the version jumps so that its low bits repeat
+	wideP, wideM := 0, int64(0)
+	if r.Chance(1, 15) {
+		wideP = 2 + r.Intn(3)
+		wideM = []int64{1 << 16, 1 << 32, 1 << 32, 1 << 48}[r.Intn(4)]
+	}
 	for rd := 0; rd < nRounds; rd++ {
 		gap := int64(0)
 		if r.Chance(1, 6) {
 			gap = int64(r.Intn(3))
+		}
+		if wideP > 0 {
+			gap = 0
+			if rd > 0 && rd%wideP == 0 {
+				gap = wideM - int64(wideP)
+			}
 		}
 		s.Ops = append(s.Ops, Op{K: "round", N: gap})
 		kidx := 0
@@ -424,9 +436,9 @@ func GenSched(r *sim.Rand, tier string) sim.Script {
 		var ops []Op
 		for i := 2 + r.Intn(5); i > 0; i-- {
 			p := pool[r.Intn(len(pool))]
-			w := []int{30, 18, 25, 8, 5, 4, 3, 4, 3, 6, 3}
+			w := []int{30, 18, 25, 8, 5, 4, 3, 4, 3, 6, 3, 3}
 			if lossy {
-				w = []int{0, 0, 40, 10, 5, 15, 10, 0, 3, 0, 3}
+				w = []int{0, 0, 40, 10, 5, 15, 10, 0, 3, 0, 3, 0}
 			}
 			switch r.Weighted(w) {
 			case 0:
@@ -453,6 +465,9 @@ func GenSched(r *sim.Rand, tier string) sim.Script {
 				ops = append(ops, Op{K: "mchild", P: p, V: []byte(fmt.Sprintf("m%d", n))})
 			case 10:
 				ops = append(ops, Op{K: "validate"})
+			case 11:
+				n++
+				ops = append(ops, Op{K: "mergedb", P: p, V: []byte(fmt.Sprintf("d%d", n))})
 			}
 		}
 		s.Tasks = append(s.Tasks, ops)
